@@ -43,6 +43,7 @@ pub struct Sess {
     pub calls: u64,
     pub quiet_stepend: HashMap<String, u64>, // ep -> time of the last logged StepEnd
     pub fwd_since_step: HashMap<String, bool>,
+    pub full_steps: bool, // log every StepEnd (needed by the lock-step conformance model)
 }
 
 fn set_rcvbuf(s: &UdpSocket) {
@@ -79,7 +80,7 @@ impl Sess {
         let server = server::Server::bind("127.0.0.1:0", cfg).expect("bind");
         let server_addr = server.address();
         Self { server: Some(server), server_addr, slots: Vec::new(), raw: Vec::new(), held: Vec::new(), wire_idx: 0, t0_ns: t0,
-               uid_next: 1, uid_len: HashMap::new(), dead: false, calls: 0, quiet_stepend: HashMap::new(), fwd_since_step: HashMap::new() }
+               uid_next: 1, uid_len: HashMap::new(), dead: false, calls: 0, quiet_stepend: HashMap::new(), fwd_since_step: HashMap::new(), full_steps: std::env::var("UVH_FULL_STEPS").is_ok() }
     }
 
     pub fn t_ms(&self) -> u64 {
@@ -200,7 +201,7 @@ impl Sess {
                 self.log_client_events(tr, i, evs);
                 // quiet steps (no event, nothing received) are logged at most once per virtual second
                 let t = self.t_ms();
-                if busy || t >= self.quiet_stepend.get(&name).copied().unwrap_or(0) + 1000 {
+                if busy || self.full_steps || t >= self.quiet_stepend.get(&name).copied().unwrap_or(0) + 1000 {
                     self.quiet_stepend.insert(name.clone(), t);
                     let c = self.slots[i].client.as_ref().unwrap();
                     tr.line(json!({"ev": "StepEnd", "ep": name, "t": t, "active": c.is_active(), "bufsize": c.send_buffer_size().min(2_000_000_000)}));
@@ -225,7 +226,7 @@ impl Sess {
             Ok(evs) => {
                 let t = self.t_ms();
                 let busy = !evs.is_empty() || self.fwd_since_step.remove("s").unwrap_or(false);
-                let log_end = busy || t >= self.quiet_stepend.get("s").copied().unwrap_or(0) + 1000;
+                let log_end = busy || self.full_steps || t >= self.quiet_stepend.get("s").copied().unwrap_or(0) + 1000;
                 for ev in evs.into_iter() {
                     match ev {
                         server::Event::Connect(a) => tr.line(json!({"ev": "Event", "ep": "s", "peer": self.peer_name(&a), "kind": "Connect", "t": t})),
